@@ -1,9 +1,9 @@
 #!/bin/sh
-# Build goatsim from /verif/sim against /repo's current working tree with the verif hooks on.
-# Exit 2 on any build trouble (never a VIOLATION).
-set -e
+# Build goatsim from ./sim (next to this script) against /repo's current working tree with the
+# verif hooks on. Exit 2 on any build trouble (never a VIOLATION).
+DIR=$(cd "$(dirname "$0")" && pwd)
 export GOFLAGS=-mod=mod GOPROXY=off GOSUMDB=off GOTOOLCHAIN=local CGO_ENABLED=0
-cd /verif/sim
+cd "$DIR/sim" || exit 2
 cp /repo/go.sum go.sum 2>/dev/null || true
-mkdir -p /verif/bin
-go build -tags verif -o /verif/bin/goatsim ./cmd/goatsim || { echo "goatsim: INFRASTRUCTURE: build failed" >&2; exit 2; }
+mkdir -p "$DIR/bin"
+go build -tags verif -o "$DIR/bin/goatsim" ./cmd/goatsim || { echo "goatsim: INFRASTRUCTURE: build failed" >&2; exit 2; }
